@@ -114,9 +114,9 @@ def BtfS.read (P : Params) (utf8 : Bytes → Bool) (b : BtfS σ) (n : Nat) : Exc
 
 inductive ROp where
   | list
-  | getFile (name : Bytes)     -- opens a file handle (drops the previous one, if any)
+  | getFile (name : Bytes)     -- opens a file handle (ends the previous one, if any)
   | read (n : Nat)             -- reads from the open handle
-  | drop                       -- abandons the open handle
+  | drop                       -- abandons the open handle (every op but `read` also ends it)
   | getHash (name : Bytes)
   | getSize (name : Bytes)
 deriving Repr, DecidableEq
@@ -141,23 +141,30 @@ structure ArS (σ : Type) where
   ix : Index
   handle : Option (BtfSt × Nat × Nat × List Nat)   -- state, id, curOff, offsets of the open handle
 
+/-- One call on the reader.  `get_file(&mut self)` returns a `BlocksToFileReader` that mutably borrows
+    the reader (its `src` and the offsets inside `metadata`), so in Rust NO other method — not even
+    `list_files(&self)` — can be called while that handle is alive: the borrow checker forces the
+    handle to be dead (never used again) before `list_files`, `get_hash`, `get_file` or a size lookup.
+    The model mirrors this: every operation other than `.read` ends the borrow (`handle := none`), so a
+    `.read` after it answers `.noHandle` instead of reading through a stale handle whose stream was
+    moved by `get_hash`. -/
 def ArS.step (P : Params) (utf8 : Bytes → Bool) (a : ArS σ) : ROp → ArS σ × ROut
-  | .list => (a, .names (a.ix.map (·.1)))
+  | .list => ({ a with handle := none }, .names (a.ix.map (·.1)))
   | .getSize name =>
     match a.ix.find name with
-    | none => (a, .none_)
-    | some fi => (a, .size fi.size)
+    | none => ({ a with handle := none }, .none_)
+    | some fi => ({ a with handle := none }, .size fi.size)
   | .getHash name =>
     match a.ix.find name with
-    | none => (a, .none_)
+    | none => ({ a with handle := none }, .none_)
     | some fi =>
       match Stream.seek a.src (.start fi.eof) with
-      | .error e => (a, .err e)
+      | .error e => ({ a with handle := none }, .err e)
       | .ok (src, _) =>
         match Hdr.decodeS P utf8 src with
-        | .error e => ({ a with src := src }, .err e)
-        | .ok (src, .eof _ h) => ({ a with src := src }, .hash h)
-        | .ok (src, _) => ({ a with src := src }, .err .state)
+        | .error e => ({ a with src := src, handle := none }, .err e)
+        | .ok (src, .eof _ h) => ({ a with src := src, handle := none }, .hash h)
+        | .ok (src, _) => ({ a with src := src, handle := none }, .err .state)
   | .getFile name =>
     match a.ix.find name with
     | none => ({ a with handle := none }, .none_)
